@@ -44,6 +44,7 @@ def normal_form(rep, M, rid, ranking=True):
                               "first of equals chosen)", M.where(SR.GS))
     c07.r07_2(rep, M, rid)
     c07.r07_3(rep, M, rid, representative=not ranking)
+    SR.ground_state_consistency_raises(rep, M, rid)
     SR.index_spaces(rep, M, rid)
     SR.orbit_source(rep, M, rid)
 
